@@ -24,7 +24,7 @@ func init() {
 		ID:    "C11",
 		Level: "exploration",
 		Rule: "cases: corpus files decorated (a) without and (b) with import resolution (goast), then restored (a) plainly, (b) with import management, (c) with Extras; plus " +
-			"hand-edited trees (identifier paths added so that the restorer must synthesise selectors). Monitors on Decorator.Map and on Restorer.Map alike: every non-comment " +
+			"hand-edited trees (identifier paths added so that the restorer must synthesise selectors); plus pairs of files decorated as one *ast.Package by one Decorator and restored by one Restorer (accumulating maps, Package node). Monitors on Decorator.Map and on Restorer.Map alike: every non-comment " +
 			"node of ast.Inspect is a key of Dst.Nodes with the same type name (or SelectorExpr/X/Sel -> one *dst.Ident); every node of dst.Inspect is a key of Ast.Nodes; " +
 			"the two maps are mutually inverse modulo that collapse; each ast parent->child edge maps to a reflective dst parent->child edge (or to the same node); no nil or " +
 			"typed-nil key; no in-tree key maps outside the other tree; no key of the map that lies in neither tree's companion. distinct_nontrivial = distinct (file, configuration) with >= 1 collapsed selector or >= 50 nodes.",
@@ -33,7 +33,7 @@ func init() {
 		Assumptions: []string{
 			"nodes created for object declarations that do not occur in the syntax (Extras) are allowed as extra map entries; entries for nodes inside either tree are held to the laws",
 		},
-		Required: map[string]int{"node_types": 52, "configs": 4},
+		Required: map[string]int{"node_types": 52, "configs": 5},
 	})
 }
 
@@ -311,6 +311,80 @@ func runC11(c *fw.Ctx) {
 				}
 			})
 		}
+	}
+	// several files through one Decorator (as an *ast.Package) and one Restorer: the maps
+	// accumulate, and the laws must hold for every file of the package
+	for i := 0; i+1 < len(files); i += 2 {
+		if !c.Mine(i / 2) {
+			continue
+		}
+		pa, pb := files[i], files[i+1]
+		if strings.HasPrefix(pa, "snippet:") || strings.HasPrefix(pb, "snippet:") {
+			continue
+		}
+		id := "pair:" + corpus.Rel(pa) + "+" + corpus.Rel(pb)
+		c.Case(id, func() {
+			c.Observe("configs", "package")
+			fset := token.NewFileSet()
+			apkg := &ast.Package{Name: "p", Files: map[string]*ast.File{}}
+			srcs := map[string]string{}
+			for k, p := range []string{pa, pb} {
+				src := readFile(p)
+				if src == nil {
+					return
+				}
+				name := fmt.Sprintf("f%d.go", k)
+				af, err := parser.ParseFile(fset, name, src, parser.ParseComments)
+				if err != nil {
+					return
+				}
+				apkg.Files[name] = af
+				srcs[name] = string(src)
+			}
+			d := decorator.NewDecorator(fset)
+			var dn dst.Node
+			var err error
+			if sig, detail := fw.Try(func() { dn, err = d.DecorateNode(apkg) }); sig != "" {
+				c.Violate("decorate-panic", sig, id+"\n"+detail, "")
+				return
+			}
+			if err != nil {
+				return
+			}
+			dp, ok := dn.(*dst.Package)
+			if !ok {
+				c.Violate("decorator/package-type", "decorator/package-type", fmt.Sprintf("%s: DecorateNode(*ast.Package) returned %T", id, dn), "")
+				return
+			}
+			if d.Dst.Nodes[apkg] != dst.Node(dp) || d.Ast.Nodes[dp] != ast.Node(apkg) {
+				c.Violate("decorator/package-node", "decorator/package-node", id+": the Package node is not mapped to its counterpart in both directions", "")
+			}
+			if len(dp.Files) != len(apkg.Files) {
+				c.Violate("decorator/package-files", "decorator/package-files", fmt.Sprintf("%s: %d files decorated, %d in the ast package", id, len(dp.Files), len(apkg.Files)), "")
+			}
+			r := decorator.NewRestorer()
+			for _, name := range []string{"f0.go", "f1.go"} {
+				af, df := apkg.Files[name], dp.Files[name]
+				if df == nil {
+					c.Violate("decorator/package-files", "decorator/package-files", id+": file "+name+" missing in the decorated package", "")
+					continue
+				}
+				c11Laws(c, id+"/"+name, "decorator", af, df, d.Ast.Nodes, d.Dst.Nodes, srcs[name])
+				var rf *ast.File
+				if sig, detail := fw.Try(func() { rf, err = r.RestoreFile(df) }); sig != "" {
+					c.Violate("restore-panic", sig, id+"\n"+detail, srcs[name])
+					return
+				}
+				if err != nil {
+					return
+				}
+				c11Laws(c, id+"/"+name, "restorer", rf, df, r.Ast.Nodes, r.Dst.Nodes, srcs[name])
+			}
+			// the first file's entries must have survived the second restoration
+			c11Laws(c, id+"/f0.go(after f1.go)", "decorator", apkg.Files["f0.go"], dp.Files["f0.go"], d.Ast.Nodes, d.Dst.Nodes, srcs["f0.go"])
+			c.Count("packages_two_files", 1)
+			c.Nontrivial(id)
+		})
 	}
 	_ = reflect.TypeOf
 }
